@@ -624,6 +624,61 @@ def k6_prevented(i: int, opt: int, explicit: bool) -> bool:
 _MP = []
 
 
+# ----------------------------------------------------------------------------- K7: where the status comes from
+
+K7_STATUSES = (None, 'PASS', 'FAIL', 'SKIP')
+K7_ASSERTIONS = (('passes', 'exists -rel-home the.case'), ('fails', 'exists -rel-home no-such-file'),
+                 ('hard-error', 'run -rel-act no-such-program'))
+# verdict by the table of the manual: (effective status, outcome of the assertion) -> identifier
+K7_VERDICT = {('PASS', 'passes'): 'PASS', ('PASS', 'fails'): 'FAIL', ('PASS', 'hard-error'): 'HARD_ERROR',
+              ('FAIL', 'passes'): 'XPASS', ('FAIL', 'fails'): 'XFAIL', ('FAIL', 'hard-error'): 'HARD_ERROR',
+              ('SKIP', 'passes'): 'SKIPPED', ('SKIP', 'fails'): 'SKIPPED', ('SKIP', 'hard-error'): 'SKIPPED'}
+
+
+def _pre_k7(ss: int, cs: int, a: int, explicit: bool) -> bool:
+    return 0 <= ss < len(K7_STATUSES) and 0 <= cs < len(K7_STATUSES) and 0 <= a < len(K7_ASSERTIONS)
+
+
+def k7_status_source(ss: int, cs: int, a: int, explicit: bool) -> bool:
+    """
+    pre: _pre_k7(ss, cs, a, explicit)
+    post: _
+    """
+    import os
+    from vsym import scratch
+    from exactly_lib.util.file_utils.std import StdOutputFiles
+    suite_status, case_status = ob.pick(K7_STATUSES, ss), ob.pick(K7_STATUSES, cs)
+    outcome, assertion = ob.pick(K7_ASSERTIONS, a)
+    explicit = ob.concrete_bool(explicit)
+    work = scratch.new_dir('c02k7')
+    d = os.path.join(work, 'd')
+    os.mkdir(d)
+    suite = '[conf]\n' + ('status = %s\n' % suite_status if suite_status else '') + '[cases]\n'
+    case = ('[conf]\nstatus = %s\n' % case_status if case_status else '') + '[assert]\n' + assertion + '\n'
+    suite_path = os.path.join(d, 'other.suite' if explicit else 'exactly.suite')
+    with open(suite_path, 'w') as f:
+        f.write(suite)
+    case_path = os.path.join(d, 'the.case')
+    with open(case_path, 'w') as f:
+        f.write(case)
+    argv = (['--suite', suite_path] if explicit else []) + [case_path]
+    out, err = Sink(), Sink()
+    cwd = os.getcwd()
+    os.chdir(d)
+    try:
+        with ob.untraced():   # every selector is concrete by now
+            rc = _main_program().execute(argv, StdOutputFiles(out, err))
+    finally:
+        os.chdir(cwd)
+    scratch.remove(work)
+    # the contents of the suite's [conf] come BEFORE the case's (help: suite, section conf): what the case says wins
+    effective = case_status or suite_status or 'PASS'
+    if ob.case().get('oracle_bug'):
+        effective = suite_status or case_status or 'PASS'
+    ident = K7_VERDICT[(effective, outcome)]
+    return ob.post(rc == TABLE[ident] and out.value().split('\n')[0] == ident)
+
+
 def _main_program():
     if not _MP:
         from exactly_lib.cli_default import default_main_program_setup as dmps
@@ -693,6 +748,17 @@ def obligations(tier: str) -> List[Ob]:
                   case=dict(fault=[i for i, (f, _) in enumerate(cat) if f == 'cleanup'][0],
                             oracle_bug='keep-path-only-when-complete'), kernel='K3',
                   bound='seeded oracle error', timeout=900, expect=ob.REFUTE))
+    obs.append(Ob(name='K7:status-source', fn='k7_status_source', case={}, kernel='K7', selector=True,
+                  bound='status set by the suite in force (none / PASS / FAIL / SKIP; `exactly.suite` beside the case or --suite FILE) x '
+                        'status set by the case (none / PASS / FAIL / SKIP) x an assertion that passes / fails / is a hard error: the '
+                        'verdict, exit code and identifier are those of the table for the status the CASE sets, else the suite\'s, '
+                        'else PASS',
+                  timeout=600, real=REAL_CHAIN + ('exactly_lib.cli.main_program.MainProgram.execute',
+                                                  'exactly_lib.test_suite.file_reading.suite_file_reading._TestCaseInstructionsFromTestSuiteAdder'),
+                  stubs=('in-memory stdout/stderr', 'CrossHair tracing is suspended while the program runs on the concrete files'),
+                  entry='MainProgram.execute([--suite FILE] CASE)'))
+    obs.append(Ob(name='K7:seeded-oracle-error', fn='k7_status_source', case=dict(oracle_bug=True), kernel='K7', selector=True,
+                  bound='seeded: the status of the suite is claimed to win', timeout=300, expect=ob.REFUTE))
     return obs
 
 
